@@ -717,11 +717,12 @@ fn ubj(rng: &mut Rng, ctx: &mut Ctx) {
         let mut clean = true;
         if k % 20 == 19 { let d = [127usize, 128, 126, 129, 120 + (rng.next() % 20) as usize, 1000][(k / 20) % 6]; body.clear(); for _ in 0..d - 1 { body.extend(b"U\x01a{"); } for _ in 0..d - 1 { body.push(b'}'); } clean = d <= 127; }
         if k % 40 == 19 { // wide but shallow: many maps in total, little nesting
-            let n = 100 + (rng.next() % 120) as usize; body.clear(); for i in 0..n { body.extend(b"U\x03"); body.extend(format!("{:03}", i).as_bytes()); body.push(b'{'); if i % 7 == 0 { body.extend(b"U\x01x{U\x01yl\x00\x00\x00\x01}"); } body.push(b'}'); } clean = true; }
-        if k % 9 == 8 && !body.is_empty() { let i = (rng.next() as usize) % body.len(); body[i] = (rng.next() >> 8) as u8; clean = false; }
+            let n = [127usize, 200, 126, 111, 180][(k / 40) % 5] + (rng.next() % 3) as usize; body.clear(); for i in 0..n { body.extend(b"U\x03"); body.extend(format!("{:03}", i).as_bytes()); body.push(b'{'); if i % 7 == 0 { body.extend(b"U\x01x{U\x01yl\x00\x00\x00\x01}"); } body.push(b'}'); } clean = true; }
+        let structured = k % 20 == 19; // the deep and the wide trees stay as built
+        if k % 9 == 8 && !structured && !body.is_empty() { let i = (rng.next() as usize) % body.len(); body[i] = (rng.next() >> 8) as u8; clean = false; }
         // a length written with another UBJSON integer type (`l` int32, `i` int8, `I` int16, `L` int64) — negative, zero, small, huge — where the
         // format subset has `U`: for a string value or for a key
-        if k % 9 == 4 && body.len() >= 2 { let spots: Vec<usize> = std::iter::once(0usize).chain((0..body.len() - 2).filter(|&i| body[i] == b'S' && body[i + 1] == b'U').map(|i| i + 1)).filter(|&i| body[i] == b'U').collect();
+        if k % 9 == 4 && !structured && body.len() >= 2 { let spots: Vec<usize> = std::iter::once(0usize).chain((0..body.len() - 2).filter(|&i| body[i] == b'S' && body[i + 1] == b'U').map(|i| i + 1)).filter(|&i| body[i] == b'U').collect();
             if !spots.is_empty() { let i = spots[(rng.next() as usize) % spots.len()];
                 let rep: Vec<u8> = match rng.next() % 8 { 0 => { let mut v = vec![b'l']; v.extend((-1i32).to_be_bytes()); v } 1 => { let mut v = vec![b'l']; v.extend(i32::MIN.to_be_bytes()); v } 2 => { let mut v = vec![b'l']; v.extend(3i32.to_be_bytes()); v }
                     3 => { let mut v = vec![b'l']; v.extend(i32::MAX.to_be_bytes()); v } 4 => vec![b'i', 0xff], 5 => vec![b'I', 0x80, 0x00], 6 => { let mut v = vec![b'L']; v.extend((-2i64).to_be_bytes()); v } _ => { let mut v = vec![b'l']; v.extend(0i32.to_be_bytes()); v } };
